@@ -242,7 +242,7 @@ package model
 //@   assert-at return : fqname(n.Host, n.Namespace, n.Model, n.Tag) ==> pnbns(result) == n.Namespace
 //@   assert-at return : fqname(n.Host, n.Namespace, n.Model, n.Tag) ==> pnbr3(result) == n.Host
 //@   assert-at return : fqname(n.Host, n.Namespace, n.Model, n.Tag) ==> !scontains(n.Host, "://")
-//@   ensures fqname(n.Host, n.Namespace, n.Model, n.Tag) ==> pnbtag(result) == n.Tag && pnbmodel(result) == n.Model && pnbns(result) == n.Namespace && pnbhost(result) == n.Host
+//@   assert-at return : fqname(n.Host, n.Namespace, n.Model, n.Tag) ==> pnbtag(result) == n.Tag && pnbmodel(result) == n.Model && pnbns(result) == n.Namespace && pnbhost(result) == n.Host
 
 // ===== C13 strengthening (audit): the parser, the defaults and the short printer are pinned down ====
 //
